@@ -6,6 +6,7 @@ type spec struct {
 	// Prop is the property id handed to the harness (default ID); Also names hidden specs whose scenarios belong to the
 	// same property but live in another package: they are run by the same command and merged into the same evidence.
 	Prop         string
+	HarnessKey   string // name under which the harness registered the scenarios (default: the property id)
 	Also         []string
 	Hidden       bool
 	ID           string
@@ -75,6 +76,13 @@ func (s *spec) propID() string {
 		return s.Prop
 	}
 	return s.ID
+}
+
+func (s *spec) harnessKey() string {
+	if s.HarnessKey != "" {
+		return s.HarnessKey
+	}
+	return s.propID()
 }
 
 func (s *spec) alsoSpecs() []*spec {
@@ -168,8 +176,12 @@ var specs = []spec{
 	{ID: "C04", Pkg: ".", Level: "exploration", Procs: 2,
 		Rule:        "words over a finite write alphabet (timing family: delta in {0, one frame, S-1 tick, S, 1.4 S} x {random access, not}; parameter family: {one frame, S} x {RA with / without inline parameter sets, non-RA, parameter switch on RA / on non-RA, an access unit of parameter sets only (H264)}, the switched set differing in every component or in exactly one; interleaving family: all tracks x 2 deltas x 2 kinds, 1- and 2-AU audio writes, 1- and 3-packet Opus writes whose packets last 20/10/40 ms; audio family; reorder family: H264 with picture-order-count reordering, {one frame, S} x {IDR, P, P written ahead of a B, that B} + IDR at S-1 tick + parameter switch, the written decode time being the one mediacommon's DTS extractor derives from the written PTS/POC sequence) enumerated exhaustively as depth-N trees (from the initial state, after a regular preamble that fills the window, from negative start times, from start times of 28.5 h so that 2^63 ns / 10^9 ticks products are crossed inside the word) and as all periodic words of period <= 2 (3) run for 12 (16) x SegmentCount writes, on a configuration grid (variant x track set incl. audio-before-video x codecs x RAM/disk x SegmentCount x SegmentMinDuration {0.25, 0.5, 1, 2 s} x PartMinDuration {100, 200 ms}), plus audio-only MPEG-TS periodic words of 430 writes (a cut needs 100 writes) and storage-fault scenarios (the creation of the k-th segment file / a write to the k-th part fails, every k); after every write everything the muxer advertises is fetched through Handle (full playlist, delta update, never-advertised names), decoded with mediacommon and compared with a reference model of the written stream; distinct = distinct (configuration, final playlists, emitted-unit counts)",
 		Assumptions: e1Assumptions},
-	{ID: "C05", Pkg: ".", Level: "exploration", Procs: 1,
-		Rule:        "words over a finite write alphabet (timing family: delta in {0, one frame, S-1 tick, S, 1.4 S} x {random access, not}; parameter family: {one frame, S} x {RA with / without inline parameter sets, non-RA, parameter switch on RA / on non-RA, an access unit of parameter sets only (H264)}, the switched set differing in every component or in exactly one; interleaving family: all tracks x 2 deltas x 2 kinds, 1- and 2-AU audio writes, 1- and 3-packet Opus writes whose packets last 20/10/40 ms; audio family; reorder family: H264 with picture-order-count reordering, {one frame, S} x {IDR, P, P written ahead of a B, that B} + IDR at S-1 tick + parameter switch, the written decode time being the one mediacommon's DTS extractor derives from the written PTS/POC sequence) enumerated exhaustively as depth-N trees (from the initial state, after a regular preamble that fills the window, from negative start times, from start times of 28.5 h so that 2^63 ns / 10^9 ticks products are crossed inside the word) and as all periodic words of period <= 2 (3) run for 12 (16) x SegmentCount writes, on a configuration grid (variant x track set incl. audio-before-video x codecs x RAM/disk x SegmentCount x SegmentMinDuration {0.25, 0.5, 1, 2 s} x PartMinDuration {100, 200 ms}), plus audio-only MPEG-TS periodic words of 430 writes (a cut needs 100 writes) and storage-fault scenarios (the creation of the k-th segment file / a write to the k-th part fails, every k); after every write everything the muxer advertises is fetched through Handle (full playlist, delta update, never-advertised names), decoded with mediacommon and compared with a reference model of the written stream; distinct = distinct (configuration, final playlists, emitted-unit counts)",
+	{ID: "C05-inflight", Prop: "C05", HarnessKey: "C05-inflight", Hidden: true, Pkg: ".", Level: "model_checking", Instrument: true, Procs: 1,
+		InstrPkgs:   []string{".", "pkg/storage"},
+		StmtPoints:  []string{"partDisk.Reader", "fileDisk.Finalize", "fileDisk.Reader", "fileDisk.NewPart", "fileRAM.Finalize", "fileRAM.Reader"},
+		Assumptions: schedAssumptions},
+	{ID: "C05", Pkg: ".", Level: "exploration", Procs: 1, Also: []string{"C05-inflight"},
+		Rule:        "words over a finite write alphabet (timing family: delta in {0, one frame, S-1 tick, S, 1.4 S} x {random access, not}; parameter family: {one frame, S} x {RA with / without inline parameter sets, non-RA, parameter switch on RA / on non-RA, an access unit of parameter sets only (H264)}, the switched set differing in every component or in exactly one; interleaving family: all tracks x 2 deltas x 2 kinds, 1- and 2-AU audio writes, 1- and 3-packet Opus writes whose packets last 20/10/40 ms; audio family; reorder family: H264 with picture-order-count reordering, {one frame, S} x {IDR, P, P written ahead of a B, that B} + IDR at S-1 tick + parameter switch, the written decode time being the one mediacommon's DTS extractor derives from the written PTS/POC sequence) enumerated exhaustively as depth-N trees (from the initial state, after a regular preamble that fills the window, from negative start times, from start times of 28.5 h so that 2^63 ns / 10^9 ticks products are crossed inside the word) and as all periodic words of period <= 2 (3) run for 12 (16) x SegmentCount writes, on a configuration grid (variant x track set incl. audio-before-video x codecs x RAM/disk x SegmentCount x SegmentMinDuration {0.25, 0.5, 1, 2 s} x PartMinDuration {100, 200 ms}), plus audio-only MPEG-TS periodic words of 430 writes (a cut needs 100 writes) and storage-fault scenarios (the creation of the k-th segment file / a write to the k-th part fails, every k); after every write everything the muxer advertises is fetched through Handle (full playlist, delta update, never-advertised names), decoded with mediacommon and compared with a reference model of the written stream; plus downloads in flight while the writer carries on: all interleavings with at most 2 deviations of a writer (5 frames that publish parts, complete, finalise and remove segments) with one reader that fetches a listed segment / part / init and is slow to take the response (scheduling points at the library's synchronisation operations, at every statement of the storage functions and between the response header and body), Low-Latency / fMP4 / MPEG-TS on RAM and Directory storage: the bytes received are those of the listed resource; distinct = distinct (configuration, final playlists, emitted-unit counts)",
 		Assumptions: e1Assumptions},
 
 	{ID: "C06", Pkg: ".", Level: "model_checking", Instrument: true, RacePass: false, Procs: 1,
